@@ -25,11 +25,11 @@ package objectsets
 //@   requires [C03] !failedSoFar()
 //@   at Parse#1 assert [C03] arg1 == probesOf(objectSet)
 //@   after Parse#1 ghost parsedProbe() := result0
-//@   loop @reconcilePhase invariant [C03] parsedProbe() == loopentry(parsedProbe())
+//@   loop @reconcilePhase|reconcileLocalPhase invariant [C03] parsedProbe() == loopentry(parsedProbe())
 // status.controllerOf is gathered from every phase that was reconciled in this pass, the failing one included (an
 // unavailable revision is archived only if it controls nothing the next revision contains - decided from this list)
-//@   after reconcilePhase ghost ctrlGathered() := ctrlGathered() + len(result0)
-//@   loop @reconcilePhase invariant [C06,C08] len(controllerOfAll) == ctrlGathered() - old(ctrlGathered())
+//@   after reconcilePhase|reconcileLocalPhase|remotePhaseReconciler.Reconcile ghost ctrlGathered() := ctrlGathered() + len(result0)
+//@   loop @reconcilePhase|reconcileLocalPhase invariant [C06,C08] len(controllerOfAll) == ctrlGathered() - old(ctrlGathered())
 //@   ensures [C06,C08] result2 == nil ==> len(result0) == ctrlGathered() - old(ctrlGathered())
 //@   ghost failedSoFar() := old(failedSoFar()) || result2 != nil || !(len(result1.PhaseName) == 0 && len(result1.FailedProbes) == 0)
 //@   ensures failedSoFar() == (old(failedSoFar()) || result2 != nil || !(len(result1.PhaseName) == 0 && len(result1.FailedProbes) == 0))
@@ -62,7 +62,7 @@ package objectsets
 //@   at teardownPhase#1 assert [C04] arg2.Name == old(slice_of("package-operator.run/apis/core/v1alpha1.ObjectSetTemplatePhase", phasesOf(objectSet))[len(phasesOf(objectSet)) - 1 - idx].Name)
 //@   ensures [C04] cleanupDone && err == nil ==> old(finalizers(clientObj(objectSet))["orphan"]) || !tdPending()
 // done is reported only after the teardown of every phase was asked for (and, by the clause above, confirmed)
-//@   at teardownPhase#1 ghost tdCalls() := tdCalls() + 1
+//@   at teardownPhase|remotePhaseReconciler.Teardown|phaseReconciler.TeardownPhase ghost tdCalls() := tdCalls() + 1
 //@   loop 1 invariant [C04] tdCalls() == old(tdCalls()) + idx && idx <= old(len(phasesOf(objectSet)))
 //@   ensures [C04] cleanupDone && err == nil ==> old(finalizers(clientObj(objectSet))["orphan"]) || tdCalls() == old(tdCalls()) + old(len(phasesOf(objectSet)))
 
@@ -151,7 +151,7 @@ package objectsets
 //@   ensures [C08] arePaused && err == nil && !old(sawUnpaused()) ==> !sawUnpaused()
 //@   ensures [C08] arePaused ==> !unknown && err == nil
 
-//@ props C04,C14
+//@ props C04,C06,C09,C14
 // The finalizer that holds the ObjectSet until teardown is done is persisted before anything of this pass can create
 // or adopt an object: the sub-reconcilers (revision, slices, phases) run only after EnsureCachedFinalizer succeeded.
 //@ func package-operator.run/internal/controllers/objectsets.(*GenericObjectSetController).Reconcile
@@ -166,6 +166,15 @@ package objectsets
 //@   at UpdateObjectSetOrPhaseStatusFromError ghost errReported() := true
 //@   loop @reconciler.Reconcile invariant [C14] !subErr() && !errReported()
 //@   ensures [C14] subErr() ==> err != nil || errReported()
+// a live ObjectSet - paused or not - is probed and reported on in every pass: a pass that got past the finalizer and
+// ends without error has sent the status update (or handed an error to the status reporting)
+// the status is written under the resourceVersion the pass read its decisions from: the version of the object is never
+// set by hand (a stale pass must fail with a conflict instead of overwriting a newer status, e.g. withdrawing Succeeded)
+//@   never SetResourceVersion [C06]
+//@   after EnsureCachedFinalizer#1 ghost osLive() := result == nil
+//@   after updateStatus ghost osStatusSent() := true
+//@   loop @reconciler.Reconcile invariant [C09] osLive() == loopentry(osLive()) && osStatusSent() == loopentry(osStatusSent())
+//@   ensures [C09] err == nil && osLive() && !old(osLive()) && !old(osStatusSent()) ==> osStatusSent() || errReported()
 //@   sink SubResourceWriter.Update requires [C04] true
 
 //@ props C07
@@ -178,3 +187,21 @@ package objectsets
 //@   at loopexit@Client.Get assert [C07] forall k int :: 0 <= k && k < len(prevListOf(objectSet)) ==> readRev(k) != 0 && readRev(k) <= loopint
 //@   at SetRevision#2 assert [C07] forall k int :: 0 <= k && k < len(prevListOf(objectSet)) ==> readRev(k) < arg0
 //@   sink SubResourceWriter.Update requires [C07] true
+
+//@ props C04,C15
+// A delegated phase counts as torn down only when its phase object was confirmed absent (the read or the delete
+// answered NotFound in this call) or is not controlled by the ObjectSet (orphaned): deleting it and waiting until it is
+// gone - a phase object that is merely terminating is not done.
+//@ func package-operator.run/internal/controllers/objectsets.(*objectSetRemotePhaseReconciler).Teardown
+//@   after IsControlledBy#1 ghost phaseCtrlByOS() := result
+//@   sink Client.Update#1 requires [C04,C15] true
+//@   sink Client.Delete#1 requires [C04,C15] phaseCtrlByOS()
+//@   ensures [C04,C15] cleanupDone && err == nil ==> lastGet() == 4 || lastGet() == 3 || !phaseCtrlByOS() || lastDeleteGone()
+
+//@ props C04
+// "confirmed absent" means confirmed by the API server: the reader the delegated-phase teardown asks whether the phase
+// object is gone is the uncached one handed to the controller, not the informer cache.
+//@ func package-operator.run/internal/controllers/objectsets.newGenericObjectSetController
+//@   at newObjectSetRemotePhaseReconciler assert [C04] arg1 == uncachedClient
+//@ func package-operator.run/internal/controllers/objectsets.newObjectSetRemotePhaseReconciler
+//@   ensures [C04] result.uncachedClient == uncachedClient && result.client == client
